@@ -187,6 +187,6 @@ CLAIM = {
             "positive timeframe table by Fourier-Motzkin elimination. The whole input never escapes into a call that is not analysed "
             "or into a store inside the loop; what is written to the candle store derives only from those bounded reads or from the "
             "store itself; forming candles are generated from stored 1m candles only; matching and candle generation precede strategy "
-            "execution in every step. Nothing is keyed on variable or helper names. Not decided: the two-run hyperproperty itself.",
+            "execution in every step. Nothing is keyed on variable or helper names. Not decided: the two-run hyperproperty itself. The chunk length is a tracked symbol (>= 1, not known to be 1) of the index analysis.",
     "note": "Trusted: the stride of the time loop is positive inside its body; module-level table values are read from the literal. An index that involves a value the analysis does not follow is reported as undecided (exit 2), not as a violation.",
 }
